@@ -76,6 +76,7 @@ def gen_ops(tier, rng):
             ops.append(f'c2b {c} {cl} {sg}')
         if ref_res(c) > 1 and rng.random() < 0.2:
             ops.append(f'c2b {c} x x')
+    ops += ['c2b 0 - -', 'c2b 0 1 3', 'c2b 0 0 auto']  # the world cell has no boundary
     return ops
 
 def seg_intersect(p1, p2, p3, p4):
